@@ -518,6 +518,17 @@ def _o3_remove_insert(ctx, R, f, cfg, lp, dirp, ev, inserts, removes):
 def _o6(ctx, R):
     """A refused operation changes nothing: no explicit failure exit (raise, return False/None) lies downstream of a mutation."""
     ctx.rule("O6", "refused operations change nothing: no raise / `return False` is reachable after a mutation of the set")
+    # the evaluation compares the set left behind by every refused call with the set before it: when it followed the operations this
+    # flow rule (one way of writing them: explicit early failure exits) is recorded, not reported
+    prev_ = ctx.demote(("O6",), "the evaluation of the editing operations") if ops_eval(ctx, R) is not None else None
+    try:
+        _o6_flow(ctx, R)
+    finally:
+        if prev_ is not None:
+            ctx.restore(prev_)
+
+
+def _o6_flow(ctx, R):
     n = 0
     for op in OPS:
         f = R.m[op]
